@@ -101,6 +101,7 @@ type eng struct {
 	inits    map[string]func(statedb.WriteTxn)
 	ntab0    int // number of initial tables
 	byGo     map[uint64]*actorT
+	poisoned bool // an actor got stuck: the rest of the case is not executed (each step would wait 5 s)
 }
 
 var cur *eng
@@ -322,6 +323,13 @@ func (e *eng) run(a *actorT) {
 		}
 		e.mu.Unlock()
 		w := h.WriteTxn(metas...)
+		defer func() {
+			// a panicking actor must not keep its table locks (the other actors would hang)
+			if r := recover(); r != nil {
+				func() { defer func() { recover() }(); w.Abort() }()
+				panic(r)
+			}
+		}()
 		for _, t := range a.writes {
 			e.tabs[t].Insert(w, &Obj{ID: a.id})
 		}
@@ -538,6 +546,10 @@ func (e *eng) Op(f []string, line string, out *hx.Out) {
 		time.Sleep(2 * time.Millisecond) // let it run into the lock (not needed for correctness)
 		out.P("%s forced:%s %s", tag, a.name, e.obs())
 	case "step":
+		if e.poisoned {
+			out.P("X not executed: an actor is stuck in this case")
+			return
+		}
 		e.mu.Lock()
 		a := e.byName[f[1]]
 		ok := a != nil && !a.eager && e.enabledLocked(a)
@@ -560,6 +572,7 @@ func (e *eng) Op(f []string, line string, out *hx.Out) {
 		case p = <-a.report:
 		case <-time.After(5 * time.Second):
 			out.P("X stuck %s after %s (blocked although its next step was enabled: deadlock or unexpected wait)", a.name, a.point)
+			e.poisoned = true
 			return
 		}
 		e.mu.Lock()
